@@ -32,6 +32,18 @@ type c15SendJoinCase struct {
 	Existing    string   `json:"existing_membership"`
 	ExistingErr bool     `json:"existing_err,omitempty"`
 	Faults      []string `json:"faults"` // what the generator did (informational; the oracle reads the event)
+	// VerifierErr: the key verifier itself fails (returns an error and no results): nothing may be
+	// accepted, and nothing need be
+	VerifierErr bool `json:"verifier_err,omitempty"`
+	// UnknownVersion: the request names a room version the library does not know
+	UnknownVersion bool `json:"unknown_version,omitempty"`
+}
+
+// c15FailingVerifier is a JSONVerifier whose lookups fail altogether.
+type c15FailingVerifier struct{}
+
+func (c15FailingVerifier) VerifyJSONs(ctx context.Context, reqs []VerifyJSONRequest) ([]VerifyJSONResult, error) {
+	return nil, fmt.Errorf("c15 scripted verifier failure")
 }
 
 type c15Membership struct {
@@ -148,9 +160,15 @@ func c15SendJoinCheck(ctx *vfCtx, c c15SendJoinCase) {
 			ctx.Class("violated/" + g.name)
 		}
 	}
-	allGood := violated == 0 && !c.ExistingErr
+	allGood := violated == 0 && !c.ExistingErr && !c.VerifierErr && !c.UnknownVersion
 	if allGood {
 		ctx.Class("all-guards-hold")
+	}
+	if c.VerifierErr {
+		ctx.Class("verifier-fails")
+	}
+	if c.UnknownVersion {
+		ctx.Class("unknown-room-version")
 	}
 	ctx.Class("via/" + viaClass)
 	ctx.Class("existing/" + c.Existing)
@@ -168,11 +186,19 @@ func c15SendJoinCheck(ctx *vfCtx, c c15SendJoinCase) {
 	mq := &c15Membership{answer: c.Existing, err: c.ExistingErr, forSender: sender}
 	var resp *HandleSendJoinResponse
 	var herr error
+	var verifier JSONVerifier = c15Ring(c.Keys)
+	if c.VerifierErr {
+		verifier = c15FailingVerifier{}
+	}
+	reqVersion := RoomVersion(c.Version)
+	if c.UnknownVersion {
+		reqVersion = "org.example.c15.unknown"
+	}
 	if vfCatch(ctx, "C15/send-join", func() {
 		resp, herr = HandleSendJoin(HandleSendJoinInput{
-			Context: c15Quiet(), RoomID: *roomID, EventID: c.ReqEventID, JoinEvent: spec.RawJSON(c.Event), RoomVersion: RoomVersion(c.Version),
+			Context: c15Quiet(), RoomID: *roomID, EventID: c.ReqEventID, JoinEvent: spec.RawJSON(c.Event), RoomVersion: reqVersion,
 			RequestOrigin: spec.ServerName(c.Origin), LocalServerName: c15Local, KeyID: c15KeyID, PrivateKey: priv,
-			Verifier: c15Ring(c.Keys), MembershipQuerier: mq, UserIDQuerier: vfUserIDForSender, StoreSenderIDFromPublicID: c15NoStore,
+			Verifier: verifier, MembershipQuerier: mq, UserIDQuerier: vfUserIDForSender, StoreSenderIDFromPublicID: c15NoStore,
 		})
 	}) {
 		return
@@ -186,6 +212,12 @@ func c15SendJoinCheck(ctx *vfCtx, c c15SendJoinCase) {
 	if herr == nil && !accepted {
 		ctx.Fail("C15/send-join/no-error-no-event", "HandleSendJoin returned neither an error nor an event")
 		return
+	}
+	if accepted && c.VerifierErr {
+		ctx.Fail("C15/send-join/accepted-despite/verifier-failure", "HandleSendJoin accepted an event although the key verifier failed (no signature was checked): %s", c.Event)
+	}
+	if accepted && c.UnknownVersion {
+		ctx.Fail("C15/send-join/accepted-despite/unknown-room-version", "HandleSendJoin accepted an event for a room version it does not know")
 	}
 	if accepted {
 		for _, g := range guards {
@@ -309,6 +341,12 @@ func c15SendJoinGen(t *rapid.T) c15SendJoinCase {
 		c.ReqEventID = c15FakeEventID(c.Version, "someotherevent")
 	}
 	c.Event = vfBytes(jplain(ev))
+	switch rapid.IntRange(0, 19).Draw(t, "infraFault") {
+	case 0:
+		c.VerifierErr = true
+	case 1:
+		c.UnknownVersion = true
+	}
 	return c
 }
 
